@@ -51,6 +51,9 @@ func (e *Engine) traceSig(f string) []types.Type {
 	if s, ok := e.traceSigs[f]; ok {
 		return s
 	}
+	if strings.HasPrefix(f, "tick$") {
+		return nil
+	}
 	var out []types.Type
 	if fn, recv := e.foreignMethod(f); fn != nil {
 		sig := fn.Type().(*types.Signature)
@@ -179,6 +182,9 @@ func (c *FuncCtx) traceRes(st *State, f string, i int, sort string) string {
 
 func (e *Engine) traceResSig(f string) []types.Type {
 	var out []types.Type
+	if strings.HasPrefix(f, "tick$") {
+		return nil
+	}
 	if fn, _ := e.foreignMethod(f); fn != nil {
 		sig := fn.Type().(*types.Signature)
 		for k := 0; k < sig.Results().Len(); k++ {
@@ -431,4 +437,10 @@ func (c *FuncCtx) traceBuiltin(st *State, name string, x *ast.CallExpr) ([]*Val,
 		return []*Val{c.val(mkSel(c.traceArr(st, f, int(k)), i.S), sig[k])}, true
 	}
 	return nil, false
+}
+
+// tickBase: the value of a ghost counter at function entry (counters start at
+// zero; the trace counter they are stored in starts at an arbitrary value).
+func (c *FuncCtx) tickBase(f string) string {
+	return "T_" + traceIdent(f) + "_n"
 }
